@@ -41,12 +41,13 @@ def bits_repr(n, v): return f'Bits{n}(0x{v:0{(n + 3) // 4}x})'
 
 class CD:
   """description of one generated component class: source lines + local facts (names relative to the component) + child slots"""
-  def __init__(s, name, method):
-    s.name, s.method = name, method
+  def __init__(s, name, method, forward=False, cid=0):
+    s.name, s.method, s.forward, s.cid = name, method, forward, cid
     s.lines, s.facts, s.slots, s.nblk = [], [('comp',), ('sig', nm('clk')), ('sig', nm('reset'))], [], 0
     s.features = set()
     if method:
-      s.lines += ['s.recv = CalleePort( method=s.recv_ )', 's.acc = 0']
+      # forward: the callee port has no method of its own; it is connected to a child's callee port (an internal method net)
+      s.lines += ['s.recv = CalleePort()' if forward else 's.recv = CalleePort( method=s.recv_ )', 's.acc = 0', 's.kk = k']
       s.facts.append(('meth', nm('recv')))
   def sig(s, n, ctor, w):
     s.lines.append(f's.{n} = {ctor}( {w} )'); s.facts.append(('sig', nm(n)))
@@ -57,7 +58,7 @@ class CD:
     s.facts += [('rd', name, r) for r in reads] + [('wr', name, w) for w in writes] + [('call', name, c) for c in calls]
   def source(s):
     body = ''.join(f'    {l}\n' for l in s.lines)
-    m = '  def recv_( s, v ):\n    s.acc = v\n' if s.method else ''
+    m = f'  def recv_( s, v ):\n    s.acc = v\n    return v + 16 * s.kk + {1000 * s.cid}\n' if s.method and not s.forward else ''
     return f'class {s.name}( Component ):\n  def construct( s, k=1, p=0 ):\n{body}{m}'
 
 class Gen:
@@ -75,7 +76,7 @@ class Gen:
   # ---------------------------------------------------------------- leaf classes
   def gen_leaf(s, rich=None):
     rng = s.rng
-    cd = CD(s.fresh('L'), s.method); s.classes.append(cd)
+    cd = CD(s.fresh('L'), s.method, cid=len(s.classes)); s.classes.append(cd)
     cd.sig('in_', 'InPort', 8); cd.sig('out', 'OutPort', 8)
     comb = []          # (blk name, reads, writes) in dataflow order
     prev = nm('in_')
@@ -182,7 +183,9 @@ class Gen:
         n, m = rng.randrange(1, 3), rng.randrange(1, 3); c = s.child_class(depth + 1)
         kids.append([(f'l{gi}[{i}][{j}]', c, rng.randrange(1, 9)) for i in range(n) for j in range(m)])
         s.features.add('list2d-slot')
-    cd = CD(s.fresh('T' if top else 'P'), s.method and not top); s.classes.append(cd)
+    forward = s.method and not top and rng.random() < 0.5
+    cd = CD(s.fresh('T' if top else 'P'), s.method and not top, forward, cid=len(s.classes)); s.classes.append(cd)
+    if forward: s.features.add('callee-forwarded-to-child')
     cd.sig('in_', 'InPort', 8); cd.sig('out', 'OutPort', 8)
     # declarations of the slots (lists are written as nested literal lists of pick(...)( k ))
     for grp in kids:
@@ -201,6 +204,15 @@ class Gen:
       for seg, c, k in grp:
         cd.slots.append((seg, c, k))
         cd.facts += [('edge', ('s', nm(seg, 'clk')), ('s', nm('clk'))), ('edge', ('s', nm(seg, 'reset')), ('s', nm('reset')))]
+    if forward:
+      seg = rng.choice(cd.slots)[0]
+      cd.lines.append(f'connect( s.recv, {expr(nm(seg))}.recv )'); cd.facts.append(('medge', nm('recv'), nm(seg, 'recv')))
+    if s.method and rng.random() < 0.5:
+      # a caller port of this component connected to a child's callee port, called from an update_once block
+      seg = rng.choice(cd.slots)[0]
+      cd.lines += ['s.cp = CallerPort()', f'connect( s.cp, {expr(nm(seg))}.recv )']
+      cd.facts += [('meth', nm('cp')), ('medge', nm('cp'), nm(seg, 'recv'))]
+      cd.blk('up_cp', 'once', ['s.cp( 2 )'], [], [], [nm('cp')]); s.features.add('caller-port-connected-inside')
     comb = []
     src = nm('in_')
     t = 0
@@ -287,6 +299,7 @@ def refs_of(f):
   if k in ('RDU', 'WRU'): return [f[1]]
   if k == 'M': return [m[1] for m in (f[1], f[2]) if m[0] == 'm']
   if k == 'edge': return [e[1] for e in (f[1], f[2]) if e[0] == 's']
+  if k == 'medge': return [f[1], f[2]]
   return []
 
 def coq_name(n): return coq_list([f'"{x}"' for x in n])
@@ -303,6 +316,7 @@ def coq_fact(f):
   if k in ('RDU', 'WRU'): return f'(F{k} {coq_name(f[1])} "{f[2]}" "{f[3]}")'
   if k == 'M': return f'(FM {coq_mref(f[1])} {coq_mref(f[2])} "{f[3]}")'
   if k == 'edge': return f'(FEdge {coq_ep(f[1])} {coq_ep(f[2])})'
+  if k == 'medge': return f'(FMEdge {coq_name(f[1])} {coq_name(f[2])})'
   raise ValueError(f)
 def coq_hier(h):
   return coq_list([f'({coq_name(n)}, {coq_list([coq_fact(f) for f in facts])})' for n, facts in h])
@@ -409,13 +423,26 @@ def scan_residue(top, removed_ids):
   return hits
 
 # ------------------------------------------------------------------ one history
-def drive(top, seed, cycles=20):
+def drive(top, seed, pure, cycles=20):
   from pymtl3.passes.PassGroups import DefaultPassGroup
+  from pymtl3.dsl.Connectable import MethodPort
   top.apply(DefaultPassGroup()); top.sim_reset()
+  # the method ports of the top component and of its children are actually CALLED every cycle; what they return
+  # (or the class of the exception) is part of the compared trace
+  ports = sorted((p for p in top.get_all_object_filter(lambda x: isinstance(x, MethodPort)) if repr(p).count('.') <= 2), key=repr)
   r = random.Random(seed); tr = []
   for c in range(cycles):
     top.in_ @= r.getrandbits(8)
-    top.sim_eval_combinational(); tr.append(sc.snapshot(top)); top.sim_tick(); tr.append(sc.snapshot(top))
+    calls = {}
+    for p in ports:
+      v = r.randrange(16)
+      try: calls['<call>' + repr(p)] = p(v)
+      except Exception as e: calls['<call>' + repr(p)] = 'raises ' + type(e).__name__
+    if pure:
+      top.sim_eval_combinational(); snap = sc.snapshot(top); snap.update(calls); tr.append(snap); top.sim_tick(); tr.append(sc.snapshot(top))
+    else:
+      # designs with method ports / update_once blocks have no sim_eval_combinational (PrepareSimPass): tick only
+      top.sim_tick(); snap = sc.snapshot(top); snap.update(calls); tr.append(snap)
   return tr
 
 VIEW_OF = {'comp': 'all_components', 'sig': 'signals', 'meth': 'all_method_ports', 'blk': 'update_blocks', 'rd': 'upblk_reads', 'wr': 'upblk_writes',
@@ -544,13 +571,15 @@ def run_history(ctx, tag, src, history, params, cases, meta, expect_hier=None, f
                   dict(replay, location=where))
   # simulation
   seed = ctx.rng.randrange(1 << 30)
+  from pymtl3.dsl.Connectable import MethodPort
+  pure = not scratch.get_all_object_filter(lambda x: isinstance(x, MethodPort)) and not scratch.get_all_update_once()
   try:
-    tr_s = drive(scratch, seed)
+    tr_s = drive(scratch, seed, pure)
   except Exception as e:
     ctx.note(f'{tag}: scratch design cannot be simulated: {type(e).__name__}: {str(e)[:120]}'); tr_s = None
   if tr_s is not None:
     try:
-      tr_r = drive(top, seed)
+      tr_r = drive(top, seed, pure)
       d = sc.first_diff(tr_r, tr_s)
       if d or len(tr_r) != len(tr_s) or set(tr_r[0]) != set(tr_s[0]):
         ctx.violation('C15:sim-trace:differs', f'{tag}: the replaced design and the direct build simulate differently: first difference {d}; signal sets differ: {sorted(set(tr_r[0]) ^ set(tr_s[0]))[:4]}',
